@@ -29,7 +29,7 @@ def main():
     for case, rec in zip(rel, rr):
         c.count(case, nontrivial=True)
         if "err" in rec:
-            if not rec["err"].startswith("FractionalDimensionError"):
+            if True:
                 c.violation(f"raises:{rec['err'].split(':')[0]}", f"prefix relations raised {rec['err']}", {"case": case})
             continue
         for f in rec["fails"]:
